@@ -11,3 +11,6 @@ const (
 
 // verifAccess is a no-op unless the verif build tag is set.
 func verifAccess(index *ShapeIndex, loc uint8, write bool) {}
+
+// verifEdgeQueryPath is a no-op unless the verif build tag is set.
+func verifEdgeQueryPath(optimized bool) {}
